@@ -268,14 +268,15 @@ class Recorder:
         self.touched.add(self.ids[id(tc)])
         return self.ids[id(tc)]
 
-    def stmt(self, tc, s):
+    def stmt(self, tc, s, iteration_order=False):
         asserts = [enc(a.source.split(".", 1)[0].strip()) for a in s.assertions if isinstance(getattr(a, "source", None), str)]
         return {"bound": None if s.bound_variable is None else enc(s.bound_variable),
-                "btype": self.tid(s.bound_type), "uses": [enc(n) for n in s.used_variables()],
+                "btype": self.tid(s.bound_type),
+                "uses": [enc(n) for n in (self.check.head_reference_order(s) if iteration_order else s.used_variables())],
                 "asserts": asserts, "simpleAssign": tc._transform_assign_to_expr(s.node) is not s.node}
 
-    def stmts(self, tc):
-        return [self.stmt(tc, s) for s in tc._statements]
+    def stmts(self, tc, iteration_order=False):
+        return [self.stmt(tc, s, iteration_order) for s in tc._statements]
 
     def full(self, tc):
         return canon_full({
@@ -458,7 +459,7 @@ def install_patches():
         o = REC.oid(other)
         if start < 0:
             raise RecorderError("append_test_case_from with a negative start is not modelled")
-        ostmts = REC.stmts(other)
+        ostmts = REC.stmts(other, iteration_order=True)
         draws = with_draws(lambda: nested(orig, self, other, start))
         REC.emit({"appendFrom": {"id": i, "oid": o, "other": ostmts, "start": start, "draws": draws}},
                  {"otherOk": True, "l": REC.light(self), "full": REC.full(self)})
@@ -521,7 +522,7 @@ def install_patches():
             return nested(orig_splice, parent, other, position1, position2)
         ptc, otc = parent.test_case, other.test_case
         i, o = REC.oid(ptc), REC.oid(otc)
-        ostmts = REC.stmts(otc)
+        ostmts = REC.stmts(otc, iteration_order=True)
         size_before = ptc.size()
         REC.pending_clone = None
         draws = with_draws(lambda: nested(orig_splice, parent, other, position1, position2))
@@ -700,6 +701,7 @@ class C15(PropertyCheck):
         self._clusters = {}
         self._store = {}
         self._keeps = None
+        self._sorted_refs = None
 
     # -- generation ---------------------------------------------------------------------------
     def gen_case(self, rng):
@@ -753,6 +755,52 @@ class C15(PropertyCheck):
                 REC = saved
             self.count("tree:remove_unused_keeps_assertions" if self._keeps else "tree:remove_unused_drops_assertions")
         return self._keeps
+
+    def head_reference_order(self, stmt):
+        """The order in which `_resolve_head_references` visits `stmt.used_variables()` (the model consumes the
+        random draws in that order): sorted since "crossover resolves head references in a deterministic
+        order", the frozenset's own order before.  Behavioural probe, once per run: a tail statement reading two
+        head variables whose set order differs from their sorted order; the loop variable is read off the frame
+        of each `randomness.choice` call."""
+        if self._sorted_refs is None:
+            global REC
+            import libcst as cst
+            import pynguin.testcase.testcase as tcm
+            from pynguin.utils import randomness
+            saved, REC = REC, None
+            orig_choice = randomness.choice
+            try:
+                verdict = True
+                pairs = [(a, b) for a in range(12) for b in range(a + 1, 12)]
+                for a, b in pairs:
+                    names = [f"var_{a}", f"var_{b}"]
+                    node = cst.parse_module(f"var_99 = [{names[0]}, {names[1]}]\n").body[0]
+                    tail = tcm.Statement(node=node, bound_variable="var_99", bound_type=list)
+                    if list(tail.used_variables()) == sorted(tail.used_variables()):
+                        continue
+                    other, me = tcm.TestCase(), tcm.TestCase()
+                    for n in names:
+                        lit = cst.parse_module(f"{n} = 1\n").body[0]
+                        other.add_statement(tcm.Statement(node=lit, bound_variable=n, bound_type=int))
+                    other.add_statement(tail)
+                    me.add_statement(tcm.Statement(node=cst.parse_module("var_0 = 1\n").body[0],
+                                                   bound_variable="var_0", bound_type=int))
+                    me._var_counter = 1
+                    seen = []
+
+                    def choice(seq):
+                        seen.append(sys._getframe(1).f_locals.get("name"))
+                        return seq[0]
+                    randomness.choice = choice
+                    me.append_test_case_from(other, 2)
+                    verdict = seen == sorted(names)
+                    break
+                self._sorted_refs = verdict
+            finally:
+                randomness.choice = orig_choice
+                REC = saved
+            self.count("tree:head_references_sorted" if self._sorted_refs else "tree:head_references_set_order")
+        return sorted(stmt.used_variables()) if self._sorted_refs else list(stmt.used_variables())
 
     def _cleanup(self):
         if self._tmp is not None:
